@@ -513,3 +513,35 @@ def gate_targets(nd: dict) -> list[str]:
     if fb is not None and fb not in t:
         t.append(fb)
     return t
+
+
+EXC_KINDS = ["plain", "plain", "noargs", "typeerror_kw", "keyerror"]
+
+
+def gen_api(rng: random.Random) -> dict:
+    """Which spelling of the public API builds the program (all are equivalent by documentation)."""
+    return {"decorators": rng.random() < 0.3, "explicit_edges": rng.random() < 0.25, "wrap_async": rng.random() < 0.2}
+
+
+def with_api(g: dict, api: dict | None) -> dict:
+    """Copy of a program spec with the API-spelling flags applied at every nesting level."""
+    import copy as _copy
+
+    if not api:
+        return g
+    g2 = _copy.deepcopy(g)
+    wrng = random.Random(mix("wrap", shape_of(g)))
+
+    def walk(gr: dict) -> None:
+        if api.get("decorators"):
+            gr["decorators"] = True
+        if api.get("explicit_edges"):
+            gr["explicit_edges"] = True
+        for nd in gr["nodes"]:
+            if nd["kind"] == "graph":
+                walk(nd["graph"])
+            elif nd["kind"] == "fn" and api.get("wrap_async") and not nd.get("gen") and wrng.random() < 0.4:
+                nd["wrap_async"] = True
+
+    walk(g2)
+    return g2
